@@ -109,7 +109,9 @@ def ws(case, res):
                 for _ in range(rng.randrange(0, 4)):
                     lines.append(rng.choice([b"Origin: http://x.example", b"X-Y: " + b"z" * rng.randrange(0, 120), b"Cookie: a=b; c=d", b"Pragma: no-cache"]))
                 rng.shuffle(lines)
-                target = rng.choice([b"/api/jet/", b"/api/jet/", b"/api/jet/x", b"/api/jet/?a=1"])
+                target = rng.choice([b"/api/jet/", b"/api/jet/", b"/api/jet/x", b"/api/jet/?a=1",
+                                     # absolute form (RFC 7230 5.3.2): the handler is selected by the path component
+                                     b"http://127.0.0.1:11123/api/jet/", b"http://h/api/jet/?client=x"])
                 data = b"GET " + target + b" HTTP/1.1\r\n" + b"\r\n".join(lines) + b"\r\n\r\n"
                 c = S.connect("hs%d" % i, "ws")
                 c.hs_key, c.hs_sent = key, True
